@@ -110,6 +110,10 @@ func (iter *UnsavedFastIterator) Domain() ([]byte, []byte) {
 
 // Valid implements store.Iterator.
 func (iter *UnsavedFastIterator) Valid() bool {
+	if iter.Error() != nil {
+		// without the persisted entries the merge would present uncommitted entries out of order
+		return false
+	}
 	if iter.start != nil && iter.end != nil {
 		if bytes.Compare(iter.end, iter.start) != 1 {
 			return false
